@@ -19,7 +19,7 @@ TRUSTED = [
     "Coq 8.16.1 kernel (coqc, vm_compute); no axioms: every theorem is 'Closed under the global context'",
     "translator vplib/translate/gen_codegen.py (scanners over codegen/ast.rs binding_strength / associativity / can_bind_left / keywords / valid_prql_ident and the context strengths forced at restricted positions -- alias threshold of Expr::write, no_alias of the FuncCall arm, SwitchCase::write, default value / body of the Func arm, annotations in Stmt::write --, parser/expr.rs pratt levels and operator tokens, lexer/mod.rs keyword list; fail closed)",
     "modelled, not verified: coq/Model/Fmt*.v restate write_expr (width unlimited), write_ident_part, display_ident_part, Literal Display, and a predictive model of the expression parser of parser/expr.rs; both are compared with the implementation on every run (token streams of the real lexer, ASTs of the real parser)",
-    "the expression theorem is at token level: that the printed text of an expression lexes to the model's token list (spacing, range bind flags, atoms) is checked by the correspondence streams, not proved (the full lexer model belongs to C17)",
+    "the expression theorem is at token level; at TEXT level (through C17's lexer model Model/Lexer.v, its translator gen_lex_tables.py and its forward lemmas Proofs/LexForward.v, all read-only) only the spaced fragment is proved (fmt_text_lexes, fmt_expr_text_roundtrip: bare identifiers, true/false/null, non-negative integers, plain double-quoted strings, parameters, binary operator symbols, `name =`, `|`, `=>`); that the printed text lexes to the model's token list outside it (brackets, commas, unary operators, named arguments, range bind flags, floats, keywords, line breaks) is checked by the correspondence streams, not proved",
     "Rust's f64 Display prints the shortest round-tripping decimal in positional notation, and str::parse::<f64> is correctly rounded (floats are modelled as decimal mantissa/exponent pairs); char::escape_default; Unicode classes (alphabetic/alphanumeric) as Section variables",
     "line breaking (SeparatedExprs, write_or_expand, width accounting), types (type definitions, `let x <ty>`, the type annotations of lambda parameters), the `prql` header: outside the theorems, covered only by the direct differential oracle; the statement layer (Model/FmtStmt.v) is modelled at unlimited width with indentation counted in nat",
     "harness/src/c14.rs (prql_to_pl, pl_to_prql, json::from_pl, compile) and the JSON normaliser that drops `span` and `doc_comment`",
@@ -296,7 +296,7 @@ def run():
     if "error" in info:
         ck.coverage["translator_error"] = info["error"]
     ck.assumptions += [
-        "partial: line breaking (SeparatedExprs / write_or_expand), type expressions and the `prql` header are outside the theorems; they are covered only by the differential oracle (pl/fmt/compile on generated and pool sources).  Lambdas (without type annotations), aliases at operand positions and annotation expressions are inside the theorems since this round",
+        "partial: line breaking (SeparatedExprs / write_or_expand; compared token by token with the one-line model text by corr-wrapped-tokens), `let x <ty>`, the type annotations of lambdas and the `prql` header are outside the theorems; they are covered only by the differential oracle (pl/fmt/compile on generated and pool sources).  Inside the theorems: expressions incl. lambdas (without type annotations), aliases at operand positions, annotation expressions; whole programs (statement layer); type expressions; s-/f-strings; the text level for the spaced fragment",
         "the oracle compares ASTs with `span` and `doc_comment` removed (the property ignores positions, comments and line wraps)",
         "named arguments are a HashMap in the AST, printed in key order since commit 9396557: the model represents the map as its association list in that order",
         "compile equality is judged on sql.sqlite and sql.generic with format=false; a panic inside error rendering (F9) counts as an error",
